@@ -210,6 +210,42 @@ def sc_agree_preserved(M, n, op, s=0, kprime=()):
         M.check(f"agree.value[{c}]", M.implies(exp[c], M.and_(lo[c] == v[c], up[c] == v[c])))
 
 
+@scenario
+def sc_bounds_history(M, n, computer, ops):
+    """A whole history on one game object (hidden game symbolic): ops are ['r', s] reveal the true value of s,
+    ['u', s] un-reveal s, ['x', [ids]] bulk reset to minimal + ids, ['c'] recompute.  After every recompute the table
+    is exactly (L, U) of the CURRENT knowledge - whatever happened between two recomputes."""
+    C = M.mod("coalitions").Coalition
+    game_m, bounds = M.mod("game"), M.mod("bounds")
+    v = declare_game(M, n)
+    assume_class(M, n, v, computer)
+    g = game_m.IncompleteCooperativeGame(n, bounds.BOUNDS[computer])
+    mini = minimal(n)
+    g.set_known_values([v[c] for c in mini], [C(c) for c in mini])
+    known = set(mini)
+    for t, op in enumerate(ops):
+        if op[0] == "r":
+            g.reveal_value(v[op[1]], C(op[1]))
+            known.add(op[1])
+        elif op[0] == "u":
+            g.unreveal_value(C(op[1]))
+            known.discard(op[1])
+        elif op[0] == "x":
+            ks = sorted(set(mini) | set(op[1]))
+            g.set_known_values([v[c] for c in ks], [C(c) for c in ks])
+            known = set(ks)
+        else:
+            g.compute_bounds()
+            k = {c: (c in known) for c in range(1 << n)}
+            kn, lo, up = table(M, g, n)
+            L = G.lower_spec(M, n, k, v)
+            U = G.upper_spec(M, n, k, v, L)
+            for c in range(1 << n):
+                M.check(f"after[{t}].known[{c}]", M.iff(kn[c], k[c]))
+                M.check(f"after[{t}].contains[{c}]", M.and_(lo[c] <= v[c], v[c] <= up[c]))
+                M.check(f"after[{t}].table_is_LU[{c}]", M.and_(lo[c] == L[c], up[c] == U[c]))
+
+
 # ---------------------------------------------------------------------------------------------
 # Ghost lemmas over the spec functions only (no repository code): they carry C02/C07 from the
 # functional postcondition "table = L/U" to the property statement.
@@ -634,6 +670,8 @@ def sc_sam_final_antitone(M, n):
     """The final upper pass is antitone in the lower table: from lo1 <= lo2 pointwise (same knowledge),
     up2 <= up1.  With 'the body is inflationary' this gives: r+1 repetitions never looser than r.
     Checked on the cut program's exit path run twice with independently havoced lower tables."""
+    if not M.symbolic:
+        return          # a statement about the cut program only; the native layer has nothing to replay
     bounds = M.mod("bounds")
     v = declare_game(M, n)
     assume_class(M, n, v, "sam_apx")
@@ -659,6 +697,8 @@ def sc_sam_final_antitone(M, n):
     getattr(bounds, SAM_FN)(g1, reps)
     rt.spec["sam.outer"] = {"inv": true_inv, "havoc": mk("two")}
     getattr(bounds, SAM_FN)(g2, reps)
+    if "one" not in lows or "two" not in lows:
+        return          # the loop was not entered on this path (zero iterations): nothing to compare
     for c in range(1 << n):
         M.assume(lows["one"][c] <= lows["two"][c])
     _, l1, u1 = table(M, g1, n)
